@@ -204,7 +204,7 @@ func c07Run(t *testing.T, p c07Plan) (res vfResult) {
 					pc := w.goCmd(func() error { return r.PauseService("svc", time.Second, vfMs(st.MaxPauseMs)) })
 					synctest.Wait()
 					sc.stop() // the gated request claims while pause is draining
-					verifPointFn = nil
+					vfCurSched.Store(nil)
 					<-pc.done
 					<-slow.done
 					synctest.Wait()
